@@ -77,6 +77,9 @@ pub enum Step {
     Transform(Pose),
     /// continue with a clone of the mesh (the original is dropped)
     CloneAndContinue,
+    /// clone the mesh, append the first mesh to the original and the second to the clone (both
+    /// stay alive), query the original and then the clone; the history continues with the original
+    ForkAppend(M, M),
 }
 
 pub struct EdgesObs {
@@ -324,6 +327,7 @@ fn history_stage(mesh: &M, steps: &[Step], k: usize) -> M {
             Step::Append(o) => m = union(&m, o, None),
             Step::Transform(p) => m = p.apply_mesh(&m),
             Step::CloneAndContinue => {}
+            Step::ForkAppend(a, _) => m = union(&m, a, None),
         }
     }
     m
@@ -345,6 +349,43 @@ fn gen_history(rng: &mut Rng) -> Sc {
                 steps.push(Step::Append(c));
             }
             2 => steps.push(Step::Transform(Pose::random(rng, 3.0))),
+            _ if rng.chance(0.5) => {
+                // two different components with the same number of faces
+                let mut a = gen_component(rng, 8);
+                let want = a.f.len();
+                let mut b = None;
+                for _ in 0..40 {
+                    let cand = gen_component(rng, 8);
+                    if cand.f.len() == want && cand.f != a.f {
+                        b = Some(cand);
+                        break;
+                    }
+                }
+                let mut b = match b {
+                    Some(b) => b,
+                    None => {
+                        // same faces, one of them re-attached elsewhere is not always possible:
+                        // fall back to a disjoint copy with one face flipped (connectivity as sets
+                        // is the same, so use a copy split into two components instead)
+                        let mut c2 = a.clone();
+                        if c2.f.len() >= 2 {
+                            // detach the last face: give it three vertices of its own
+                            let f = c2.f.pop().unwrap();
+                            let base = c2.v.len() as u32;
+                            for k in 0..3 {
+                                let p = c2.v[f[k] as usize];
+                                c2.v.push([p[0] + 0.125, p[1] + 0.25, p[2] + 50.0]);
+                            }
+                            c2.f.push([base, base + 1, base + 2]);
+                        }
+                        c2
+                    }
+                };
+                translate(&mut a, [reach * 4.0, rng.uniform(-1.0, 1.0), rng.uniform(-1.0, 1.0)]);
+                translate(&mut b, [reach * 4.0, rng.uniform(-1.0, 1.0) + 100.0, rng.uniform(-1.0, 1.0)]);
+                reach = reach * 4.0 + a.size().max(b.size()) + 200.0;
+                steps.push(Step::ForkAppend(a, b));
+            }
             _ => steps.push(Step::CloneAndContinue),
         }
     }
@@ -1024,6 +1065,7 @@ impl Property for C12 {
                     OpResult::Budget(_) => return Obs::Construct("budget".into()),
                 };
                 let mut stages = vec![observe_mesh(sim, &me, false)];
+                let mut forks: Vec<(usize, MeshObs)> = Vec::new();
                 for s in steps {
                     let r = match s {
                         Step::Append(o) => {
@@ -1039,11 +1081,33 @@ impl Property for C12 {
                             me = c;
                             OpResult::Done(())
                         }
+                        Step::ForkAppend(a, b2) => {
+                            let mut fork = me.clone();
+                            let (ma, mb) = (to_mesh(a), to_mesh(b2));
+                            let r1 = sim.op("Mesh::append", 1_000_000, || me.append(&ma).map_err(|e| e.to_string())).map(|_| ());
+                            let r2 = sim.op("Mesh::append", 1_000_000, || fork.append(&mb).map_err(|e| e.to_string())).map(|_| ());
+                            // the original first, then the clone, both alive
+                            let first = observe_mesh(sim, &me, false);
+                            forks.push((stages.len(), observe_mesh(sim, &fork, false)));
+                            stages.push(first);
+                            if let OpResult::Panic(m) = r2 {
+                                return Obs::Construct(format!("history step panicked: {}", m));
+                            }
+                            if let OpResult::Panic(m) = r1 {
+                                return Obs::Construct(format!("history step panicked: {}", m));
+                            }
+                            continue;
+                        }
                     };
                     if let OpResult::Panic(m) = r {
                         return Obs::Construct(format!("history step panicked: {}", m));
                     }
                     stages.push(observe_mesh(sim, &me, false));
+                }
+                // the forks are judged like stages of their own (the model is derived from the
+                // mesh the library holds)
+                for (_, f) in forks {
+                    stages.push(f);
                 }
                 Obs::Stages(stages)
             }
@@ -1145,6 +1209,18 @@ impl Property for C12 {
                         Obs::Construct(msg) => out.push(Violation::new("panic", "Mesh::new/append/transform", msg.clone(), &[vi])),
                         Obs::Stages(stages) => {
                             for (k, o) in stages.iter().enumerate() {
+                                if k > steps.len() {
+                                    // a fork: only the queries are judged
+                                    let before = out.len();
+                                    judge_mesh(o, vi, stats, &mut out);
+                                    if out.len() > before {
+                                        for v in out[before..].iter_mut() {
+                                            v.message = format!("(clone kept alive beside the original in a query-change-query history) {}", v.message);
+                                        }
+                                        break;
+                                    }
+                                    continue;
+                                }
                                 // the mesh itself must be what the history says it is
                                 let want = history_stage(mesh, steps, k);
                                 let tol = 1e-9 * want.size();
@@ -1456,6 +1532,7 @@ impl Property for C12 {
                     && mesh.in_domain()
                     && steps.iter().all(|s| match s {
                         Step::Append(o) => !o.f.is_empty() && o.in_domain(),
+                        Step::ForkAppend(a, b) => !a.f.is_empty() && a.in_domain() && !b.f.is_empty() && b.in_domain() && b.has_distinct_positions(),
                         _ => true,
                     })
                     && history_stage(mesh, steps, steps.len()).has_distinct_positions()
